@@ -86,4 +86,32 @@ theorem doSort_perm (val : α → Nat → Option Int) (ks : List SortKey) (l : L
   | nil => exact List.Perm.refl _
   | cons k ks ih => exact (insSort_perm _ _).trans ih
 
+/-! ## what the extracted link-table statements denote
+
+`rfl` / `simp` evaluate the **extracted** constants: if the source swaps columns or values these lemmas (and with
+them every C13 theorem about `related` / `addLink` / `removeLink`) stop checking. -/
+open SqlObjVerif.Graph
+
+/-- `SELECT otherColumn FROM t WHERE joinColumn = owner` -/
+theorem related_def (db : DB) (t : Nat) (ownFirst : Bool) (owner : Nat) :
+    related db t ownFirst owner =
+      (db.links.filter fun l => l.table == t && l.col ownFirst == owner).map (·.col (!ownFirst)) := rfl
+
+/-- `INSERT (joinColumn, otherColumn) VALUES (owner, other)` -/
+theorem addLink_def (db : DB) (t : Nat) (ownFirst : Bool) (owner other : Nat) :
+    addLink db t ownFirst owner other =
+      { db with links := db.links ++ [if ownFirst then ⟨t, owner, other⟩ else ⟨t, other, owner⟩] } := by
+  cases ownFirst <;> rfl
+
+/-- `DELETE WHERE joinColumn = owner AND otherColumn = other` -/
+theorem removeLink_def (db : DB) (t : Nat) (ownFirst : Bool) (owner other : Nat) :
+    removeLink db t ownFirst owner other =
+      { db with links := db.links.filter fun l =>
+          !(l.table == t && l.col ownFirst == owner && l.col (!ownFirst) == other) } := by
+  unfold removeLink
+  congr 1
+  apply List.filter_congr
+  intro l _
+  simp [Extracted.Graph.removeConds, Extracted.Graph.JCol.first, Extracted.Graph.JVal.get, Bool.and_assoc]
+
 end SqlObjVerif.Joins
